@@ -128,3 +128,6 @@ def run(chk):
     # R4 data order
     chk.borrow(c06.r4, {"C06.R4": "C10.R4"})
     chk.obs = [o for o in chk.obs if not (o.rule == "C10.R4" and o.key not in ("ascending-order", "aligned-pairs", "polling-data"))]
+    # ... and the two samples are put into that order in place, by the same key (C07.R6)
+    chk.borrow(c07.r6, {"C07.R6": "C10.R4"})
+    chk.obs = [o for o in chk.obs if not (o.rule == "C10.R4" and o.key in ("selection-order-recorded",))]
